@@ -502,8 +502,21 @@ def replay_h_prof(detail):
     n, u, m = detail['n'], detail['u'], detail['m']
     distinct_present = u - (1 if m > 0 else 0)
     present = n - m
-    vals = ['v%07d' % (i if i < distinct_present else 0) for i in range(present)]
-    col = pd.Series(vals + [None] * m, dtype=object)
+    kind = detail.get('kind', 'O')
+    ids = [(i if i < distinct_present else 0) for i in range(present)]
+    if kind == 'f':
+        col = pd.Series([float(i) + 0.5 for i in ids] + [float('nan')] * m, dtype='float64')
+    elif kind == 'i':
+        col = pd.Series([i - 7 for i in ids] + [pd.NA] * m, dtype='Int64')
+    elif kind == 'u':
+        col = pd.Series(ids + [pd.NA] * m, dtype='UInt32')
+    elif kind == 'M':
+        col = pd.Series([pd.Timestamp('2001-01-01') + pd.Timedelta(days=i) for i in ids] + [pd.NaT] * m,
+                        dtype='datetime64[ns]')
+    elif kind == 'S':
+        col = pd.Series(['v%07d' % i for i in ids] + [None] * m, dtype='string')
+    else:
+        col = pd.Series(['v%07d' % i for i in ids] + [None] * m, dtype=object)
     df = pd.DataFrame({'a': col, 'b': col})
     pa = detail.get('profile_attrs', ['a'])
     out = repo.mod('').profile_table_for_join(df, pa)
@@ -514,7 +527,8 @@ def replay_h_prof(detail):
         return False, 'attribute not profiled in this scenario'
     row = out.loc['a']
     comment = row['Comments']
-    lines = ['table: %d rows, %d distinct values (missing counted once), %d missing' % (n, u, m),
+    lines = ['table: %d rows, column dtype %s, %d distinct values (missing counted once), %d missing' % (
+        n, col.dtype, u, m),
              'profile: Unique values=%r Missing values=%r Comments=%r' % (row['Unique values'], row['Missing values'], comment)]
     bad = False
     want_key = (u == n and m == 0)
